@@ -53,6 +53,10 @@ COLLIDE_REGISTRY = {
 }
 
 
+# lines that may arrive between the parking and the wake (no wake of node 1, no re-presentation of node 1 among them)
+PRE_LINES = ("1;255;3;0;33;\n", "1;255;3;0;0;55\n", "1;0;1;0;0;7\n", "1;0;2;0;0;\n", "1;255;3;0;11;s\n", "1;255;3;0;18;\n", "1;255;3;0;21;\n", "0;255;3;0;9;log\n", "0;255;3;0;14;ready\n",
+             "1;255;3;0;6;0\n", "1;1;0;0;3;relay\n", "junk\n", "1;255;4;0;0;00\n")
+
 # value types that belong together semantically (cover up / down / stop, dimmer, RGB...): every one is a key of its own
 TYPES_NODE1_KEYS = ((1, 0, 29), (1, 0, 30), (1, 0, 31), (1, 1, 29))
 TYPES_OTHER_KEY = (2, 0, 30)
@@ -89,6 +93,10 @@ def enumerate_cases(tier: str):
                 yield {"version": version, "parked": 2, "other_parked": 1, "senders": senders, "keys": "collide"}
                 yield {"version": version, "parked": 2, "other_parked": 0, "senders": senders, "prior": True}
             yield {"version": version, "parked": 3, "other_parked": 1, "senders": [[2, True], [0, True]], "keys": "collide", "prior": True}
+            for line in PRE_LINES:
+                yield {"version": version, "parked": 2, "other_parked": 0, "senders": [[0, True], [1, True]], "pre_lines": [line]}
+            for senders in ([[0, True]], [[1, True]], [[3, True]]):
+                yield {"version": version, "parked": 2, "other_parked": 0, "senders": senders, "bystander": True}
             for senders in ([[0, True]], [[1, True]], [[1, True], [2, True]], [[2, True], [1, True]], [[0, True], [1, True], [2, True]]):
                 yield {"version": version, "parked": 2, "other_parked": 1, "senders": senders, "keys": "types"}
                 yield {"version": version, "parked": 2, "other_parked": 0, "senders": senders, "listener": "persistent"}
@@ -125,6 +133,8 @@ def strategy(tier: str):
             "reported": st.booleans(),
             "keys": st.sampled_from(("plain", "collide", "types")),
             "debug_log": st.sampled_from((False, False, True)),
+            "pre_lines": st.one_of(st.just([]), st.lists(st.sampled_from(PRE_LINES), min_size=1, max_size=2)),
+            "bystander": st.sampled_from((False, False, True)),
             "listener": st.sampled_from(("fresh", "persistent")),
             "prior": st.booleans(),
         }
@@ -223,6 +233,8 @@ async def _run_schedule(case: dict, schedule: list[int]) -> tuple[Outcome | None
         rec["comp"] = transport.tick()
         # parked = the call returned without handing this line to the transport
         rec["parked"] = not any(line.rstrip("\n").split(";", 5)[5] == value and _key_of(line) == key for _t, line in transport.calls[calls_before:])
+        node_obj = gateway.nodes.get(key[0])
+        rec["direct_while_sleeping"] = bool(buffer) and not rec["parked"] and listen_tick[0] is None and any(r is not rec and r["key"] == key and r.get("parked") for r in sends)
         return result
 
     k = case["parked"]
@@ -242,6 +254,16 @@ async def _run_schedule(case: dict, schedule: list[int]) -> tuple[Outcome | None
         await do_send(OTHER_KEY, "po", True)
     if len(transport.calls) != prior_calls:
         return Outcome(ok=True, classes=("diverged-elsewhere",)), [], {}
+    for line in case.get("pre_lines", ()):
+        # what the node (or the gateway) says between the parking and the wake; none of it is a wake of node 1
+        await receive(line)
+    pre_calls = len(transport.calls)
+    bystander = None
+    if case.get("bystander"):
+        # a second gateway in the same process (another network) whose node with the same id wakes with nothing parked
+        bystander, _bt = env.make_gateway(version)
+        env.install_registry(bystander.nodes, registry)
+        await env.rx(bystander, f"1;255;3;0;{wake_type};5\n")
     transport.gating = True
 
     if case.get("represented"):
@@ -328,6 +350,8 @@ async def _run_schedule(case: dict, schedule: list[int]) -> tuple[Outcome | None
             sig = f"leak:{env.exc_sig(value)}" if status == "leak" else f"task-raised:{type(value).__name__}"
             return fail(sig, f"schedule {trace}: {value!r}"), factors, info
     transport.gating = False
+    if bystander is not None:
+        await env.rx(bystander, f"1;255;3;0;{wake_type};6\n")
     for node in (1, OTHER_KEY[0]):
         status, value = await receive(f"{node};255;3;0;{wake_type};5\n")
         if status == "drained":
@@ -355,6 +379,12 @@ async def _run_schedule(case: dict, schedule: list[int]) -> tuple[Outcome | None
         count = sum(1 for _t, l in transport.calls if l == line)
         if count != req_lines.count(line):
             return fail("req-command-not-written-once", f"schedule {trace}: value request {line!r} was sent {req_lines.count(line)} times and handed to the transport {count} times"), factors, info
+    if not case.get("represented"):
+        for rec in sends:
+            # the nodes are known to be sleeping throughout (nothing they sent says otherwise): a send with buffering allowed is held,
+            # never written on the spot - otherwise the value it overtakes is written after it at the wake
+            if rec["buffered"] and not rec["parked"] and not rec["racing"] and rec["inv"] > (0 if not case.get("pre_lines") else -1) and rec.get("direct_while_sleeping"):
+                return fail("buffered-send-written-directly", f"schedule {trace}: {rec['value']!r} for key {rec['key']} was written at once although the node is asleep (a parked older value follows it at the wake)"), factors, info
     for key, recs in by_key.items():
         got = written.get(key, [])
         where = f"schedule {trace}: key {key}: sent {[(r['value'], r['inv'], r['comp'], 'buffered' if r['buffered'] else 'direct') for r in recs]}, written {got}"
